@@ -15,9 +15,11 @@ def module_name(pid, g, N, p):
 
 
 def run(c, pid, groups, parts, spec, spec_files, prop_files_quick, prop_files_thorough, conditional=None,
-        source="trace.cxx", nsamples=(6, 60), workers=6, extra_support=()):
-    """conditional: {op_name: (positive_properties_file, refuted_properties_file_or_None)} for operations hit by a
-    known finding: the positive file is compiled only when no numerical failure of that operation is observed."""
+        source="trace.cxx", nsamples=(6, 60), workers=4, extra_support=(), file_timeout=2400):
+    """conditional: {op_name: (positive_properties_file, refuted_properties_file_or_None[, tier])} for operations hit by a
+    known finding: the positive file is compiled only when no numerical failure of that operation is observed; `tier`
+    (default 0) is the tier of the operation in the registry: 1 = traced in the thorough tier only, so neither file is
+    compiled in the quick tier."""
     tier = 0 if c.quick() else 1
     ns = nsamples[tier]
     cfgs = [(g, N) for g in groups for N in (1, 2, 3)]
@@ -53,14 +55,16 @@ def run(c, pid, groups, parts, spec, spec_files, prop_files_quick, prop_files_th
             t = l.split()
             if t and t[0] == "OP":
                 oplist[(t[1], int(t[2]))] = ("" if t[3] == "-" else t[3], t[4], int(t[5]))
-    gen_files, refuted, ntraced, nagree = [], {}, 0, 0
+    gen_files, refuted, ntraced, nagree, exec_only = [], {}, 0, 0, []
     for (job, out, rc, so, se) in traced:
         if rc != 0:
             c.report("trace:g%d:n%d" % (job[0], job[1]), "tracer failed on /repo's tensor code: " + se[-600:], {"stderr": se[-3000:]}, False)
             continue
         gen_files.append(out)
         for l in so.splitlines():
-            if l.startswith("TRACED"):
+            if l.startswith("TRACED-EXEC-ONLY"):
+                exec_only.append(l.split()[1])
+            elif l.startswith("TRACED"):
                 ntraced += 1
             elif l.startswith("TRACE-FAIL"):
                 c.report("trace:" + l.split()[1], "operation could not be traced: " + l, {"line": l}, False)
@@ -107,6 +111,10 @@ def run(c, pid, groups, parts, spec, spec_files, prop_files_quick, prop_files_th
             {"operation": nm, "inputs_storage_vectors": ins, "expected": exp, "observed": obs, "component": bad,
              "how": "props/%s/%s gen (real double instantiation) vs props/C02/specnum.py" % (pid, source)}, True)
     c.coverage["traces_validated_against_impl"] = nagree
+    if exec_only:
+        c.coverage["not_proved_execution_only"] = sorted(exec_only)
+        c.notes.append("NOT PROVED (execution only: traced, Sym-vs-double agreement and numerical specification on the seeded inputs, "
+                       "no Coq obligation, not counted): %s" % sorted(exec_only))
     c.trusted("engine S tracer (cxx/sym/sym.hxx: operator overloads, exact folding in Q[sqrt2,sqrt3], printer), g++ template instantiation with symv::Sym",
               "Sym-vs-double agreement of every traced operation on seeded inputs (generic, small integers with zeros/ties, mixed magnitudes): checked, not proved",
               "storage accessors operator[] / operator()(i,j) of the TFEL objects used to fill inputs and read outputs")
@@ -130,17 +138,37 @@ def run(c, pid, groups, parts, spec, spec_files, prop_files_quick, prop_files_th
         c.coq_failures(res0)
         return
     t1 = time.time()
+    # vlib's and Coq's timeouts are wall-clock limits and the machine is shared: scale the limit of a file by the load
+    # of the machine, and compile a file that ran out of time once more, alone, with twice the limit.  A proof script that
+    # still does not END is not a counterexample: it is recorded as inconclusive (nothing depending on it is counted as
+    # proved, no alarm); a proof script that FAILS is a broken obligation.
+    def limit():
+        try:
+            return int(file_timeout * max(1.0, os.getloadavg()[0] / (os.cpu_count() or 1)))
+        except OSError:
+            return file_timeout
+
+    def timed_out(r):
+        return bool(r.failed) and all(m == "timeout" or "Timeout!" in m for (_f, _l, _t, m) in r.failed)
     with ThreadPoolExecutor(max_workers=workers) as ex:
-        results = list(ex.map(lambda f: (f, c.coq([f], timeout=2400)), gen_files))
+        results = list(ex.map(lambda f: (f, c.coq([f], timeout=limit())), gen_files))
+    for i, (f, r) in enumerate(results):
+        if not r.ok and timed_out(r):
+            c.log("%s ran out of time (load %.1f): compiled again, alone" % (os.path.basename(f), os.getloadavg()[0]))
+            results[i] = (f, c.coq([f], timeout=2 * limit()))
     c.log("generated obligations compiled in %.1fs" % (time.time() - t1))
     ok_all = True
     ncomp = 0
+    inconclusive = []
     for f, r in results:
         txt = open(f).read()
         if r.ok:
             ncomp += len(re.findall(r"^Lemma \w+_c\d+_ok", txt, flags=re.M))
             continue
         ok_all = False
+        if timed_out(r):
+            inconclusive.append(os.path.basename(f))
+            continue
         for (fn, line, thm, msg) in r.failed:
             lem = ""
             for m in re.finditer(r"^Lemma (\w+) :", txt, flags=re.M):
@@ -155,11 +183,23 @@ def run(c, pid, groups, parts, spec, spec_files, prop_files_quick, prop_files_th
                 lem, os.path.basename(fn), msg[-500:]), {"lemma": lem, "file": fn, "line": line, "message": msg[-2500:]}, False)
     c.coverage["component_obligations_discharged"] = ncomp
     c.notes.append("%d operations traced, %d component obligations (generated lemmas) checked by coqc before the Properties files" % (ntraced, ncomp))
+    if inconclusive:
+        msg = ("INCONCLUSIVE: the proof scripts of %s did not end within their time limit, twice (machine load %.1f); no failing "
+               "input among the seeded inputs; the theorems of the Properties files are NOT counted as proved in this run" % (
+                   inconclusive, os.getloadavg()[0]))
+        c.log(msg)
+        c.notes.append(msg)
+        for pf in list(prop_files_quick) + ([] if c.quick() else list(prop_files_thorough)):
+            c.coverage["obligations"] += len(re.findall(r"^Theorem ", open(os.path.join(c.dir, "coq", pf)).read(), flags=re.M))
     if not ok_all:
-        c.notes.append("generated obligations failed for: %s" % sorted(set(failed_ops)))
+        if failed_ops:
+            c.notes.append("generated obligations failed for: %s" % sorted(set(failed_ops)))
         return
     props = list(prop_files_quick) + ([] if c.quick() else list(prop_files_thorough))
-    for opname, (pos, neg) in (conditional or {}).items():
+    for opname, cnd in (conditional or {}).items():
+        pos, neg = cnd[0], cnd[1]
+        if len(cnd) > 2 and cnd[2] > tier:
+            continue
         hit = [nm for nm in refuted if nm.rsplit("_", 1)[0] == opname]
         if hit:
             c.notes.append("operation %s refuted on concrete inputs (%s): positive theorems %s not compiled" % (opname, hit, pos))
@@ -167,6 +207,6 @@ def run(c, pid, groups, parts, spec, spec_files, prop_files_quick, prop_files_th
                 props.append(neg)
         else:
             props.append(pos)
-    res = c.coq(props, timeout=1200)
+    res = c.coq(props, timeout=max(1200, limit()))
     if not res.ok:
         c.coq_failures(res)
